@@ -102,9 +102,8 @@ Clause ==
                     \/ ~IsInj(e.obs.yes.rx) \/ ~IsInj(e.obs.no.rx)
                  THEN "subset-reactions" ELSE "subset-substances"))
       ELSE IF e.op = "DoAdd" THEN
-          (IF ~IsSys(e.i) \/ ~IsSys(e.j) \/ e.how \notin {"add", "iadd", "add-list", "iadd-list"}
-              \/ (e.how \in {"iadd", "iadd-list"} /\ e.i = e.j) THEN "model:DoAdd"
-           ELSE IF e.how \in {"add-list", "iadd-list"} /\ ~(SysKeys(ws[e.j]) \subseteq Subst(ws[e.i])) THEN "outside:list-add"
+          (IF ~IsSys(e.i) \/ ~IsSys(e.j) \/ e.how \notin AddHows \/ (~IsNewHow(e.how) /\ e.i = e.j) THEN "model:DoAdd"
+           ELSE IF IsPlainHow(e.how) /\ ~(SysKeys(ws[e.j]) \subseteq Subst(ws[e.i])) THEN "outside:list-add"
            ELSE IF ObsFault(e.obs) # "" THEN ObsFault(e.obs)
            ELSE IF ~(IsInj(e.obs.src) /\ ToSet(e.obs.src) = ({1} \X RIdx(ws[e.i])) \cup ({2} \X RIdx(ws[e.j])))
                 THEN "sum-reactions" ELSE "sum-substances")
